@@ -117,7 +117,7 @@ impl SentPackets {
             // exactly one key is added, nothing else changes
             forall|q: u64| final(self).get_spec(q) == (if q == pn { Some(value) } else { old(self).get_spec(q) }),
             final(self).in_flight == old(self).in_flight + (if value.size != 0 { 1int } else { 0int }),
-//@ after self.slots.resize(index, None);
+//@ after self.slots.resize(
         let ghost padded = self.slots@;
         proof {
             assert(padded.take(old(self).slots@.len() as int) =~= old(self).slots@);
